@@ -29,7 +29,12 @@ OwnIOFails == /\ \A r \in Readers : (obs.rpc[r] # "idle" /\ CloseReturned(obs, o
               /\ (ev.ev = "Write" /\ CloseReturned(pre, ev.h)) => obs.wlast[2] # "ok"
               /\ (ev.ev = "RStart" /\ CloseReturned(pre, ev.h)) => (obs.rpc[ev.p] = "ret" /\ obs.rres[ev.p] \in {"closed", "eof"})
 \* ... and leaves sibling handles fully usable
-SiblingsUsable == /\ \A r \in Readers : (obs.rpc[r] = "ret" /\ Untouched(obs, obs.rh[r])) => obs.rres[r] = "data"
+SiblingsUsable == /\ \A r \in Readers : (obs.rpc[r] = "ret" /\ Untouched(obs, obs.rh[r]) /\ obs.rres[r] # "timeout") => obs.rres[r] = "data"
+                  \* a read deadline is the handle's own: a read times out only if it began when its own handle's deadline had passed
+                  /\ \A r \in Readers : (obs.rres[r] = "timeout" /\ pre.rres[r] # "timeout") =>
+                        (ev.ev = "RStart" /\ ev.p = r /\ pre.dl[ev.h])
+                  \* ... and it does time out then, unless there is something to return (a queued datagram, the closed states)
+                  /\ (ev.ev = "RStart" /\ pre.dl[ev.h] /\ ~pre.cancelled[ev.h] /\ pre.qn = 0 /\ ~pre.uclosed) => obs.rres[ev.p] = "timeout"
                   /\ (ev.ev = "Write" /\ Untouched(obs, ev.h)) => obs.wlast[2] = "ok"
 P(n) == CASE n = "UnderlyingClosedOnce" -> UnderlyingClosedOnce [] n = "OwnIOFails" -> OwnIOFails [] n = "SiblingsUsable" -> SiblingsUsable
 Report == \A n \in Check : P(n) \/ PrintT(<<"VIOL", n, l - 1>>)
